@@ -193,41 +193,33 @@ theorem findallCount_eq_take (count : Option Nat) (l : List Nat) :
   rw [findallCount_take count l 0]
   cases count <;> simp
 
-/-- "findall all of them in increasing order including overlapping ones up to count".
-    Full statement (no `hreg`) fails on the pinned tree: see `findall_empty_witness`.
-    `hc`: the property's count domain is `None, 0, 1, 2, …`. -/
-theorem findall_sorted_complete_partial (data pat : Bits) (start stop : Option Int) (count : Option Int)
-    (ba : Option Bool) (optBA : Bool) (hreg : findall_empty_pattern pat = false)
-    (hc : ∀ c, count = some c → 0 ≤ c) :
+/-- "findall all of them in increasing order including overlapping ones up to count"; ValueError for an empty
+    pattern or an invalid range.  `hc`: the property's count domain is `None, 0, 1, 2, …`. -/
+theorem findall_sorted_complete (data pat : Bits) (start stop : Option Int) (count : Option Int)
+    (ba : Option Bool) (optBA : Bool) (hc : ∀ c, count = some c → 0 ≤ c) :
     findall data pat start stop count ba optBA =
       specGuard true data.length pat start stop fun s e =>
         specFindall data pat s e (specAligned ba optBA) (countNat count) := by
-  have hp : pat ≠ [] := by
-    intro h; subst h; simp [findall_empty_pattern] at hreg
-  have hi : pat.isEmpty = false := by cases pat <;> simp_all
   rw [findall_unfold data pat start stop count ba optBA hc]
   unfold specGuard
-  simp only [Bool.false_eq_true, if_false, hi, Bool.and_false]
-  rw [validate_slice_spec']
-  cases hw : specWindow data.length start stop with
-  | none => rfl
-  | some w =>
-    obtain ⟨s, e⟩ := w
-    have hb := specWindow_some _ _ _ _ _ hw
-    simp only [defaultBA_eq']
-    rw [findallMsb0_eq_occ' data pat s e _ hp hb.2.2.2, findallCount_take]
-    unfold specFindall
-    cases countNat count <;> simp
+  by_cases hp : pat = []
+  · subst hp; simp
+  · have hl : pat.length ≠ 0 := by intro h; exact hp (List.length_eq_zero_iff.mp h)
+    have hi : pat.isEmpty = false := by cases pat <;> simp_all
+    simp only [hl, Bool.false_eq_true, if_false, hi, Bool.and_false]
+    rw [validate_slice_spec']
+    cases hw : specWindow data.length start stop with
+    | none => rfl
+    | some w =>
+      obtain ⟨s, e⟩ := w
+      have hb := specWindow_some _ _ _ _ _ hw
+      simp only [defaultBA_eq']
+      rw [findallMsb0_eq_occ' data pat s e _ hp hb.2.2.2, findallCount_take]
+      unfold specFindall
+      cases countNat count <;> simp
 
-/-- Known finding `findall-empty`: `list(Bits('0b101').findall(''))` is `[0, 1, 2, 3]`, the property demands
-    ValueError. -/
-theorem findall_empty_witness :
-    findall_empty_pattern [] = true ∧
-    findall [true, false, true] [] none none none none false = .ok [0, 1, 2, 3] ∧
-    (specGuard true 3 [] none none fun s e => specFindall [true, false, true] [] s e false none) = .error .value := by
-  decide
-
-/-- What the code does in that region: every position of the window on the general path … -/
+/-- The store-level generator itself is still defined on the empty pattern (every position of the window on the
+    general path); the public `findall` no longer reaches it. -/
 theorem findall_empty_general (data : Bits) (s e : Nat) (he : e ≤ data.length) :
     findallMsb0 data [] s e false = (List.range (e + 1)).filter fun p => decide (s ≤ p) := by
   rw [general_eq_occ' data [] s e false he (Or.inl rfl), occ_false]
@@ -328,6 +320,12 @@ theorem empty_pattern_error_rfind (data : Bits) (start stop : Option Int) (ba : 
 theorem empty_pattern_error_in (data : Bits) (o : Bool) : contains data [] o = .error .value := by
   simp [contains, find]
 
+theorem empty_pattern_error_findall (data : Bits) (start stop : Option Int) (count : Option Int) (ba : Option Bool)
+    (o : Bool) (hc : ∀ c, count = some c → 0 ≤ c) :
+    findall data [] start stop count ba o = .error .value := by
+  rw [findall_sorted_complete data [] start stop count ba o hc]
+  simp [specGuard]
+
 /-- An invalid range is a ValueError for every entry point that takes a range (empty pattern or not). -/
 theorem invalid_range_error (data pat : Bits) (start stop : Option Int) (count : Option Int) (ba : Option Bool) (o : Bool)
     (hw : specWindow data.length start stop = none) (hc : ∀ c, count = some c → 0 ≤ c) :
@@ -339,7 +337,7 @@ theorem invalid_range_error (data pat : Bits) (start stop : Option Int) (count :
   refine ⟨?_, ?_, ?_, ?_, ?_⟩
   · unfold find; rw [hv]; split <;> rfl
   · unfold rfind; rw [hv]
-  · rw [findall_unfold data pat start stop count ba o hc, hv]
+  · rw [findall_unfold data pat start stop count ba o hc, hv]; split <;> rfl
   · unfold startswith; rw [hv]
   · unfold endswith; rw [hv]
 
